@@ -12,8 +12,8 @@ for d in seeded/*${PAT}*/; do
   sid=$(basename $d)
   prop=$(python3 -c "import json;print(json.load(open('$d/meta.json'))['property'])")
   git -C $WT checkout -q -- . ; git -C $WT clean -fdq
-  if ! git -C $WT apply "$d/patch.diff" 2>/dev/null; then
-    if ! git -C $WT apply --3way "$d/patch.diff" 2>/dev/null; then echo "$sid PATCH-DOES-NOT-APPLY"; git -C $WT checkout -q -- . ; git -C $WT reset -q --hard; continue; fi
+  if ! git -C $WT apply "/verif/$d/patch.diff" 2>/dev/null; then
+    if ! git -C $WT apply --3way "/verif/$d/patch.diff" 2>/dev/null; then echo "$sid PATCH-DOES-NOT-APPLY"; git -C $WT checkout -q -- . ; git -C $WT reset -q --hard; continue; fi
   fi
   VERIF_REPO=$WT ./check $prop --tier quick -evidence /tmp/ev_rc.json -replays /tmp/rp_rc > /tmp/check_rc.log 2>&1
   rc=$?
